@@ -53,6 +53,9 @@ func (pr *Program) verifyFunction(fn *ssa.Function) (c *Ctx) {
 		for _, rq := range fc.Requires {
 			c.assume(fr.evalBool(rq.E, env, rq))
 		}
+		for _, u := range fc.Unfold {
+			fr.unfoldHint(u, env, "true")
+		}
 	}
 	fr.run(st, "true")
 	// frame skolem
@@ -64,6 +67,9 @@ func (pr *Program) verifyFunction(fn *ssa.Function) (c *Ctx) {
 			continue
 		}
 		env := &Env{fr: fr, cur: r.st, old: fr.entry, vars: map[string]Val{}, results: r.res, paramsEntry: true}
+		for _, u := range fc.Unfold {
+			fr.unfoldHint(u, env, r.reach)
+		}
 		for i, en := range fc.Ensures {
 			g := fr.evalBool(en.E, env, en)
 			tags := en.Tags
